@@ -517,6 +517,50 @@ def check_cluster_name_validated(ck, R2, shape):
           "stored under it, and every later read of those entries fails to parse the name (or parses it into other parts)" % sorted(need), fa.where())
 
 
+def _handler_types(fa, h):
+    """Bare names of the exception classes a handler takes ([None] for a bare `except:`): a tuple spelled in place,
+    or held by a local / module-level / class-level constant (`_LOOKUP_FAILURES = (ModuleNotFoundError, ...)`),
+    tuples nested or concatenated."""
+    from .fresh import static_value
+    if h.type is None:
+        return [None]
+    at = fa.nodes(h)[0] if fa.nodes(h) else None
+    if at is None:
+        ids = [i for st in h.body for i in fa.nodes(st)]
+        at = ids[0] if ids else None
+    out = []
+
+    def rec(t, depth=0):
+        if depth > 6:
+            out.append(A.norm(t))
+            return
+        if isinstance(t, (ast.Tuple, ast.List)):
+            for x in t.elts:
+                rec(x.value if isinstance(x, ast.Starred) else x, depth + 1)
+            return
+        if isinstance(t, ast.BinOp) and isinstance(t.op, ast.Add):
+            rec(t.left, depth + 1)
+            rec(t.right, depth + 1)
+            return
+        if isinstance(t, (ast.Name, ast.Attribute)):
+            v = None
+            if isinstance(t, ast.Name) and fa.df.is_local(t.id) and at is not None:
+                # (the handler's cfg node is not where the name was read: look the binding up among the function's plain assignments)
+                vals = [st.value for st in fa.stmts(ast.Assign) if any(isinstance(x, ast.Name) and x.id == t.id for x in st.targets)]
+                v = vals[0] if len(vals) == 1 else None
+            else:
+                v = static_value(fa, t, at)
+                if v is t:
+                    v = None
+            if isinstance(v, (ast.Tuple, ast.List, ast.BinOp)):
+                rec(v, depth + 1)
+                return
+        out.append(A.norm(t).split(".")[-1])
+
+    rec(h.type)
+    return out
+
+
 def check_stub_from_stored_state(ck, R3):
     """The external stand-in for a function that cannot be resolved at the stored version is built
     from what was stored (the parsed name and the decoder's arguments) and from nothing that the
@@ -558,8 +602,7 @@ def check_unresolvable_is_absent(ck, R3):
             p_ = fa.pm.get(n)
             if isinstance(p_, ast.Try) and any(fa.inside(call, b) for b in p_.body):
                 for h in p_.handlers:
-                    ts = [None] if h.type is None else (h.type.elts if isinstance(h.type, ast.Tuple) else [h.type])
-                    if any(t is None or A.norm(t).split(".")[-1] in catching for t in ts):
+                    if any(t is None or t in catching for t in _handler_types(fa, h)):
                         # (a handler that passes the exception on does not absorb it)
                         return not any(isinstance(st, ast.Raise) for st in h.body)
             n = p_
@@ -836,14 +879,13 @@ def check(ck):
         p = fq.pm.get(n)
         if isinstance(p, ast.Try) and any(fq.inside(fcall, b) for b in p.body):
             for h in p.handlers:
-                ts = h.type.elts if isinstance(h.type, ast.Tuple) else [h.type]
-                handlers += [A.norm(t) for t in ts if t is not None]
+                handlers += ["BaseException" if t is None else t for t in _handler_types(fq, h)]
         n = p
     sup = {"ModuleNotFoundError": {"ImportError", "Exception"}, "AttributeError": {"Exception"}, "ValueError": {"Exception"},
            "FunctionNotFoundError": {"ValueError", "Exception"}}
     for c_ in ck.repo.module("exception").all_classes():
         sup.setdefault(c_.name, set()).update({b.name for b in ck.repo.mro(c_)[1:]} | set(c_.base_exprs) | {"Exception"})
-    esc = [e for e in may if e not in handlers and not (sup.get(e, set()) & set(handlers))]
+    esc = [e for e in may if e not in handlers and not (sup.get(e, set()) & set(handlers)) and "BaseException" not in handlers]
     ck.ob(R3, fq.key(fcall, "lookup-failures-caught"), not esc and len(may) >= 3,
           "everything the lookup may raise (%s) falls back to an external reference" % sorted(may) if not esc else
           "%s raised while looking the function up escapes from_qualified_name: a removed / renamed dependency makes stored metadata unreadable" % sorted(esc), fq.where(fcall))
@@ -888,14 +930,14 @@ def check(ck):
                 return NOTNONE
             return MAYBE
 
+        from .c11 import _bound_args
         ue = ck.repo.func("external.UnboundExternalMementoFunction.__init__")
         ue_params = [a.arg for a in ue.node.args.args if a.arg != "self"]
-        if any(isinstance(a_, ast.Starred) for a_ in call.args) or any(k.arg is None for k in call.keywords):
+        bound = _bound_args(fq, call, ue_params)
+        if bound is None:
             raise AnalysisError("from_qualified_name builds the external stub with */** arguments: bindings cannot be told")
-        for i_, a_ in enumerate(call.args[:len(ue_params)]):
-            binding[ue_params[i_]] = nullability(fq.expand(a_, at_call))
-        for k in call.keywords:
-            binding[k.arg] = nullability(fq.expand(k.value, at_call))
+        for p_, (v_, a_) in bound.items():
+            binding[p_] = nullability(fq.expand(v_, a_))
         env = {}
         defaults = ue.node.args.defaults
         params = [a.arg for a in ue.node.args.args]
@@ -917,10 +959,14 @@ def check(ck):
             env2 = {"self": NOTNONE}
             fparams = [a.arg for a in fri.node.args.args]
             fdef = fri.node.args.defaults
+            uefa = FA(ck, ue)
+            fbound = _bound_args(uefa, frc[0], [p_ for p_ in fparams if p_ != "self"]) if uefa.nodes(frc[0]) else None
+            if fbound is None:
+                raise AnalysisError("UnboundExternalMementoFunction.__init__ builds its reference with */** arguments: bindings cannot be told")
             for i, p in enumerate(fparams):
                 if p == "self":
                     continue
-                kv = A.kwarg(frc[0], p)
+                kv = fbound[p][0] if p in fbound else None
                 if kv is not None:
                     if isinstance(kv, ast.Name):
                         env2[p] = env.get(kv.id, MAYBE)
